@@ -257,13 +257,11 @@ theorem step_no_panic (m : Mode) (e : Endian) (valid : Bytes → Bool) (lossy : 
     | none => intro h'; cases h'
     | some b =>
       refine runQ_np st i (fun s w => ?_) w
-      split
-      · intro h'; cases h'
-      · refine map_ne_panic _ (fun w => ?_) w
-        show ptrOffsetFrom .release s b ≠ _
-        unfold ptrOffsetFrom
-        simp only
-        split <;> intro h' <;> cases h'
+      refine map_ne_panic _ (fun w => ?_) w
+      show ptrOffsetFrom .release s b ≠ _
+      unfold ptrOffsetFrom
+      simp only
+      split <;> intro h' <;> cases h'
   | offId i =>
     simp only [step]
     cases st.get i <;> (intro h'; cases h')
